@@ -546,6 +546,7 @@ func floorWitness(c *TrieCase, qs []string) []int {
 type shapeInfo struct {
 	InnerBits, InnerCnt, LeafCnt, NodeCnt, StepCnt, TailCnt int
 	LastTop                                                 bool // last stored bit of the last inner node is set
+	LastShort                                               bool // the last inner node is a short node
 }
 
 func shapeOf(keys []string, o4 [4]int) (shapeInfo, bool) {
@@ -570,6 +571,7 @@ func shapeOf(keys []string, o4 [4]int) (shapeInfo, bool) {
 	for _, n := range d.Nodes {
 		if n.Inner {
 			si.LastTop = n.TopBit
+			si.LastShort = n.Short
 			switch {
 			case n.Big:
 				si.InnerBits += 257
@@ -590,6 +592,7 @@ var boundaryConds = []struct {
 	F    func(s shapeInfo) bool
 }{
 	{"innerbits%64=0+lastbit", func(s shapeInfo) bool { return s.InnerBits > 0 && s.InnerBits%64 == 0 && s.LastTop }},
+	{"innerbits%64=0+lastshort", func(s shapeInfo) bool { return s.InnerBits > 0 && s.InnerBits%64 == 0 && s.LastShort }},
 	{"innerbits%64=0", func(s shapeInfo) bool { return s.InnerBits > 0 && s.InnerBits%64 == 0 }},
 	{"innerbits%64=63", func(s shapeInfo) bool { return s.InnerBits%64 == 63 }},
 	{"innerbits%64=1", func(s shapeInfo) bool { return s.InnerBits > 64 && s.InnerBits%64 == 1 }},
